@@ -1,7 +1,59 @@
 package main
 
-// Replay drivers: turn a solver model into a Go test injected with -overlay.
+// Replay drivers: a refutation's model is handed to a hand-written in-package Go test that is
+// injected into the real package with `go test -overlay` (nothing is written into /repo). The
+// driver decodes the model, runs the real function and checks the contract clause with an
+// independent oracle; it prints REPRODUCED when the real code misbehaves.
+
+import (
+	"encoding/json"
+	"fmt"
+	"os"
+	"os/exec"
+	"path/filepath"
+	"strings"
+	"time"
+	"context"
+)
 
 func runReplayDriver(r *Report, o *Obl, path string) bool {
-	return false
+	driver := filepath.Join(r.Verif, "replay", "drivers", safeFileName(o.Unit)+"_test.go")
+	if _, err := os.Stat(driver); err != nil {
+		return false
+	}
+	if o.PkgDir == "" {
+		return false
+	}
+	tmp, err := os.MkdirTemp("", "govc-replay-")
+	if err != nil {
+		return false
+	}
+	defer os.RemoveAll(tmp)
+	target := filepath.Join(o.PkgDir, "zz_verif_replay_test.go")
+	ov := map[string]any{"Replace": map[string]string{target: driver}}
+	ovb, _ := json.Marshal(ov)
+	ovPath := filepath.Join(tmp, "overlay.json")
+	os.WriteFile(ovPath, ovb, 0o644)
+	model, _ := json.Marshal(map[string]any{"obligation": o.Name, "model": o.Model})
+	ctx, cancel := context.WithTimeout(context.Background(), 120*time.Second)
+	defer cancel()
+	cmd := exec.CommandContext(ctx, "go", "test", "-overlay", ovPath, "-vet=off", "-count=1", "-timeout", "60s", "-run", "TestVerifReplay", ".")
+	cmd.Dir = o.PkgDir
+	cmd.Env = append(os.Environ(), "VERIF_MODEL="+string(model))
+	out, _ := cmd.CombinedOutput()
+	reproduced := strings.Contains(string(out), "REPRODUCED")
+	// record in the replay file
+	if b, err := os.ReadFile(path); err == nil {
+		var m map[string]any
+		if json.Unmarshal(b, &m) == nil {
+			m["replayed_on_real_code"] = reproduced
+			m["replay_driver"] = driver
+			m["replay_cmd"] = fmt.Sprintf("cd %s && VERIF_MODEL='%s' go test -overlay <overlay mapping %s to the driver> -vet=off -count=1 -timeout 60s -run TestVerifReplay .", o.PkgDir, string(model), target)
+			m["replay_output"] = truncate(string(out), 6000)
+			if nb, err := json.MarshalIndent(m, "", " "); err == nil {
+				os.WriteFile(path, nb, 0o644)
+			}
+		}
+	}
+	return reproduced
 }
